@@ -27,6 +27,8 @@ def _work(args):
     modname, idx, item, limit = args
     mod = importlib.import_module(modname)
     t0 = time.time()
+    real_stdout = sys.stdout
+    sys.stdout = open(os.devnull, "w")      # the library prints debug timings; workers report through results only
     try:
         if limit:
             signal.signal(signal.SIGALRM, _alarm)
@@ -46,6 +48,8 @@ def _work(args):
             "key": "%s|harness-error|%s" % (getattr(mod, "PROP", "?"), type(e).__name__),
             "what": "driver crashed on item %r: %s" % (item.get("name", idx), e),
             "detail": {"item": item, "traceback": traceback.format_exc()[-3000:]}}]}
+    sys.stdout.close()
+    sys.stdout = real_stdout
     res["_idx"] = idx
     res["_wall"] = time.time() - t0
     return res
